@@ -488,7 +488,7 @@ pub fn check_generated_key(_: &crate::props::c01::GenKeyCase, _: &mut CaseInfo) 
 pub fn def() -> PropertyDef {
 	PropertyDef {
 		id: "C15",
-		rule: "Generated certificates / CSRs / CRLs (names of up to 6 attributes; all key algorithms): (a) the same call twice with shared keys and again with rebuilt keys and issuer; (b) after a generated history of 0..6 other generation calls, some sharing the same keys and issuer; (c) 2..16 threads x 1..6 iterations sharing one &KeyPair and one issuer &Certificate; (d) batches (with several RSA subject keys of one size among them) evaluated in three fresh child processes (different hash-map seeds; the same order, backwards, and from the middle outwards); (e) keys generated by rcgen (every algorithm; RSA 2048/3072 under aws-lc-rs) sign the same parameters twice. Oracle: identical to-be-signed byte range (cut out by the harness reader), identical complete output for Ed25519 and RSA PKCS#1 v1.5, the same error when the call is refused (e.g. no serial number in a build without a crypto back end), params() equal to the input, shared key and issuer unchanged. Non-trivial = name with >= 3 attributes, or >= 4 threads, or non-empty prefix, or a cross-process batch.",
+		rule: "Generated certificates / CSRs / CRLs (names of up to 6 attributes; all key algorithms): (a) the same call twice with shared keys and again with rebuilt keys and issuer, and - for issued certificates - with the issuer's key pair as subject key once as the very same object and once as an equal copy; (b) after a generated history of 0..6 other generation calls, some sharing the same keys and issuer; (c) 2..16 threads x 1..6 iterations sharing one &KeyPair and one issuer &Certificate; (d) batches (with several RSA subject keys of one size among them) evaluated in three fresh child processes (different hash-map seeds; the same order, backwards, and from the middle outwards); (e) keys generated by rcgen (every algorithm; RSA 2048/3072 under aws-lc-rs) sign the same parameters twice. Oracle: identical to-be-signed byte range (cut out by the harness reader), identical complete output for Ed25519 and RSA PKCS#1 v1.5, the same error when the call is refused (e.g. no serial number in a build without a crypto back end), params() equal to the input, shared key and issuer unchanged. Non-trivial = name with >= 3 attributes, or >= 4 threads, or non-empty prefix, or a cross-process batch.",
 		assumptions: vec!["thread interleavings are sampled by the OS scheduler, not enumerated", "the harness reader finds the signed byte range"],
 		subs: vec![
 			prop_sub("repeat", 15_000, 300_000, || art(false), check_repeat),
